@@ -73,6 +73,8 @@ CaseResult run_static(const RunCtx &ctx, TapeReader &t, unsigned size_hint) {
     o.xthreads = ctx.x("xthreads");
     o.xprocs = ctx.x("xprocs");
     o.far_tail = true;
+    o.hull_stress = true; // > 2^16 hull vertices in one segment: the builder's hull vectors outgrow the room they were created with
+    o.hull_stress_often = ctx.mode == "mem";
     std::vector<K> keys = gen_keys<K>(t, o, meta);
     const bool nested = t.chance(1, 10); // construct from inside a caller's OpenMP parallel region
     // a second index of the same instantiation, built later over every other key, is alive during the queries and queried itself
